@@ -62,7 +62,9 @@ def run_sweep(case, res):
             shared = drivers.SplitWorld(cfg)
         w = shared
         model = SessionModel(cfg) if cfg.version == "v3" else None
-        if dim == "lastoid":
+        if dim == "count":
+            oids = [(1, 3)] * v  # the shortest varbinds there are: 7 octets each
+        elif dim == "lastoid":
             oids = [histories.oid_n(128)] * case["k"] + [histories.oid_n(v)]
         else:
             oids = [histories.OIDS["sys"]]
@@ -227,6 +229,10 @@ def work(chunk):
     for case in chunk:
         info = run_sweep(case, res)
         res.count("sweeps")
+        if case["dim"] == "count":
+            if info["max_sent"] is not None and info["first_refused"] is not None:
+                res.setdefault("count_sweeps", []).append((Cfg.from_desc(case["cfg"]).name, info["max_sent"], info["first_refused"]))
+            continue
         if info["first_refused"] is not None and info["max_sent"] is not None:
             res["exact"] = info["exact"]
             res["sweeps"].append((Cfg.from_desc(case["cfg"]).name if case["dim"] == "lastoid" else Cfg.from_desc(case["cfg"]).version + ("" if Cfg.from_desc(case["cfg"]).version != "v3" else "-" + Cfg.from_desc(case["cfg"]).name.split("v3-")[1]), case["dim"], case["op"], info["max_sent"]))
@@ -251,6 +257,8 @@ def gen_cases(tier, cap):
             yield {"cfg": d, "dim": dim, "op": op, "values": hi}
         for k in (0, 1, 2, 27, 28, 29, 30, 31):
             yield {"cfg": d, "dim": "lastoid", "op": "get_many", "k": k, "values": list(range(2, 129))}
+        # number of varbinds: the shortest possible varbinds, one more per step, until the request no longer fits
+        yield {"cfg": d, "dim": "count", "op": "get_many", "values": list(range(1, 40)) + list(range(240, 640))}
         if thorough:
             for op in ("getnext", "getbulk"):
                 yield {"cfg": d, "dim": "lastoid", "op": op, "k": 0, "values": list(range(2, 129))}
@@ -318,6 +326,11 @@ def run(tier):
 
     for _, res in pool.run(work, [[c] for c in cases], timeout=600, case_timeout=300, log_path=lp, on_failure=on_failure):
         sweeps += res.pop("sweeps")
+        for name, mx, first in res.pop("count_sweeps", []):
+            # one more 7-octet varbind was refused: the largest request sent must be within one varbind (+ length-form
+            # growth) of the capacity
+            if mx < cap - 16 and not ("des" in name or "aes" in name):
+                rec.violation("sweep/%s/get_many/count-refused-although-it-fits" % name, "get_many with %d shortest OIDs was refused although the largest request sent is only %d octets (capacity %d)" % (first, mx, cap), {"note": "count sweep", "config": name})
         if res.pop("exact", True) is False:
             rec.extra["id_width_tolerance"] = 8
         rec.merge(res)
